@@ -242,7 +242,7 @@ func (s *simplifier) removeNegateTest(x TestExpr) TestExpr {
 		}
 	case *BinaryTest:
 		switch y.Op {
-		case TsMatch:
+		case TsMatch, TsMatchShort:
 			y.Op = TsNoMatch
 			s.modified = true
 			return y
